@@ -260,7 +260,7 @@ def main(argv=None):
     if new:
         for k, v in new.items():
             path = write_replay(prop, v, seed, args.tier)
-            print(f"violation[{k}] x{vcounts[k]}: {v['what']}")
+            print(f"violation[{k}] x{vcounts[k]}: {v['what']}".encode("ascii", "backslashreplace").decode("ascii"))
             print(f"VIOLATION property={prop} replay={path}")
         return 1
     if gate_reasons:
